@@ -471,6 +471,36 @@ pub fn run(cfg: &Cfg, rep: &mut Report) {
     for (src, grouped, expected, tag) in t {
         ctx.template(src, grouped, expected, tag);
     }
+    // postfix forms: level 1 (index, slice, `? T`, call, `.k`, `.name`) binds tighter than a prefix operator and than the
+    // right operand of an iterator-level operator; level 3 postfix forms (`$+ $* $&& $|| $& $| $] ~`) bind looser than both
+    let bind = "c := mut 5; m := mut ([1, \"a\", 3]~); a := [1, 2, 3]; t := (1, (2, 3)); s := struct{a := 4}; it := [1, \"a\", 3]~; ib := [true, false]~; \
+                f := (x: any) -> any { return x }; p := (x: any) -> bool { return true }; g := (x: int) -> int { return x + 1 }; ca := mut [1, 2]; cf := mut g; ";
+    let level1 = [" ? int", "[0]", "[0:1]", "(1)", "()", ".0", ".a", " ? string", "[1:]"];
+    let level3 = [" $+", " $*", " $&&", " $||", " $&", " $|", " $]", "~"];
+    for pre in ["-", "!", "*"] {
+        for x in ["c", "m", "a", "t", "s", "it", "ib", "f", "g", "ca", "cf", "5", "true"] {
+            for post in level1 {
+                ctx.template_rel(&format!("{bind}{pre}{x}{post}"), &format!("{bind}{pre}({x}{post})"), &format!("prefix-vs-postfix1:{pre}:{}", post.trim()));
+                ctx.template_rel(&format!("{bind}({pre}{x}{post}) $]"), &format!("{bind}({pre}({x}{post})) $]"), &format!("prefix-vs-postfix1:{pre}:{}", post.trim()));
+            }
+            for post in level3 {
+                ctx.template_rel(&format!("{bind}{pre}{x}{post}"), &format!("{bind}({pre}{x}){post}"), &format!("prefix-vs-postfix3:{pre}:{}", post.trim()));
+            }
+        }
+    }
+    for op in ["@", "?", "\\"] {
+        for l in ["it", "a~", "ib", "[1, 2]~"] {
+            for r in ["f", "p", "g", "cf", "m", "it"] {
+                for post in level1 {
+                    ctx.template_rel(&format!("{bind}{l} {op} {r}{post}"), &format!("{bind}{l} {op} ({r}{post})"), &format!("iter-op-vs-postfix1:{op}:{}", post.trim()));
+                    ctx.template_rel(&format!("{bind}({l} {op} {r}{post}) $]"), &format!("{bind}({l} {op} ({r}{post})) $]"), &format!("iter-op-vs-postfix1:{op}:{}", post.trim()));
+                }
+                for post in level3 {
+                    ctx.template_rel(&format!("{bind}{l} {op} {r}{post}"), &format!("{bind}({l} {op} {r}){post}"), &format!("iter-op-vs-postfix3:{op}:{}", post.trim()));
+                }
+            }
+        }
+    }
     // every assignment operator is on the lowest level and groups to the right: whatever binary operator tops its
     // right-hand side, `c op= a low b` is `c op= (a low b)` (same value, same yielded value, same acceptance)
     let assigns = ["=", "+=", "-=", "*=", "/=", "%=", "**=", "&=", "|=", "^=", "<<=", ">>="];
